@@ -27,7 +27,7 @@ for d in sorted(os.listdir('/verif/seeded')):
             shutil.rmtree(tmp, ignore_errors=True)
 seen = set(); uniq = []
 for e in out:
-    k = (e['property'], e['rule'], e['key'])
+    k = (e['id'], e['property'], e['rule'], e['key'])
     if k not in seen:
         seen.add(k); uniq.append(e)
 doc = {"comment": "Genuine defects of quora/asynq found by these checks on the pinned tree. status=fixed: repaired by the named 'fix:' commit in /repo; a fixed entry suppresses nothing - if the violation returns it is reported as a VIOLATION. status=known would list an unrepaired defect (none at present). Never written at run time.",
